@@ -188,8 +188,13 @@ def inline_md(kind, n):
 
 
 def block_md(c, kind, n):
-    i1 = inline_md(c.pick(INL), 10 * n)
-    i2 = inline_md(c.pick(INL), 10 * n + 1)
+    if kind in ("h1", "h3", "h4"):
+        return ["#" * int(kind[1]) + " H%d" % n, "", "under %d" % n]
+    if kind in ("code", "fence", "hr", "html"):
+        i1 = i2 = ""
+    else:
+        i1 = inline_md(c.pick(INL), 10 * n)
+        i2 = inline_md(c.pick(INL), 10 * n + 1) if kind != "heading" else ""
     if kind == "para":
         return ["P%d %s and %s" % (n, i1, i2), "second line"]
     if kind == "list":
@@ -206,6 +211,8 @@ def block_md(c, kind, n):
         return ["***"]
     if kind == "heading":
         return ["## H%d %s" % (n, i1)]
+    if kind in ("h1", "h3", "h4"):
+        return ["#" * int(kind[1]) + " H%d" % n, "", "under %d" % n]
     if kind == "table":
         return ["| a%d | %s |" % (n, i1), "|:--|--:|", "| 1 | %s |" % i2]
     if kind == "html":
@@ -384,6 +391,8 @@ def families(tier, seed):
     F.append(Family("olist-start", make_olist, "ordered list with start = any integer (symbolic), present/absent, suffix . or )", nontrivial="attr", max_forks=100000))
     F.append(Family("fence-lang", make_fence, "fence info string of 3 symbolic chars over 'py-+3 '", args=dict(n=3), nontrivial="attr", max_forks=100000))
     F.append(Family("struct/B1", make_struct, "one block from %r with two inline fragments from %r, CommonMark and MyST mode" % (BLK, INL), args=dict(nblocks=1, kinds=BLK), nontrivial="nested", max_forks=400000))
+    F.append(Family("struct/headings", make_struct, "3-4 headings with levels 1/3/4 each followed by a paragraph (source order of leaves under level skips)", args=dict(nblocks=3 if q else 4, kinds=["h1", "h3", "h4"]),
+                    nontrivial=None, max_forks=400000))
     F.append(Family("struct/B2", make_struct, "two blocks (inline fragments from a reduced set)", args=dict(nblocks=2, kinds=["para", "list", "quote", "table", "heading", "hr", "code"]), nontrivial="nested",
                     max_forks=800000, required=False))
     return F
